@@ -234,11 +234,19 @@ impl Hist {
                 }
                 Ok(())
             }
+            Op::NewClient { c } => {
+                let c = self.clients[*c as usize % self.clients.len()];
+                if self.drv.new_empty_client(c).map_err(|e| harness(e, "creating an empty client record"))? {
+                    self.model.client_mut(c).exists = true;
+                    st.label("op:NewClient(applied)");
+                }
+                Ok(())
+            }
             Op::AddVersion { c, parent, data } => {
                 let c = self.clients[*c as usize % self.clients.len()];
                 let p = self.resolve(parent);
                 self.know(p);
-                let bytes: Data = Arc::new(data.expand());
+                let bytes: Data = Arc::new(self.body_for(data, st));
                 self.do_add_version(idx, op, c, p, bytes, st)
             }
             Op::GetChild { c, parent } => {
@@ -251,7 +259,7 @@ impl Hist {
                 let c = self.clients[*c as usize % self.clients.len()];
                 let v = self.resolve(version);
                 self.know(v);
-                let bytes: Data = Arc::new(data.expand());
+                let bytes: Data = Arc::new(self.body_for(data, st));
                 self.do_add_snapshot(idx, op, c, v, bytes, st)
             }
             Op::GetSnapshot { c } => {
@@ -259,6 +267,20 @@ impl Hist {
                 self.do_get_snapshot(idx, op, c, st)
             }
         }
+    }
+
+    /// The payload of an upload.  A zero-length payload is a valid argument of the library entry
+    /// points; the HTTP handlers refuse an empty body (C15's business), so a history driven over
+    /// HTTP sends one byte instead.
+    fn body_for(&self, data: &crate::case::BytesSpec, st: &mut Stats) -> Vec<u8> {
+        let b = data.expand();
+        if b.is_empty() {
+            if self.drv.via != Via::Lib {
+                return vec![0u8];
+            }
+            st.label("payload:empty");
+        }
+        b
     }
 
     fn do_add_version(&mut self, idx: usize, op: &Op, c: Uuid, p: Uuid, bytes: Data, st: &mut Stats) -> CheckResult {
@@ -627,7 +649,7 @@ impl Hist {
     }
 
     /// C11: the answer is the most recently accepted upload (id and bytes from the same upload).
-    fn c11_check(&mut self, idx: usize, c: Uuid, out: &Outcome, _st: &mut Stats) -> CheckResult {
+    pub fn c11_check(&mut self, idx: usize, c: Uuid, out: &Outcome, _st: &mut Stats) -> CheckResult {
         let mc = self.model.client(c);
         match (&mc.snap, out) {
             (None, Outcome::NoSnapshot) => Ok(()),
@@ -852,6 +874,10 @@ pub fn run_trace(
                 Op::AgeSnapshot { c, .. } => {
                     let cid = h.clients[*c as usize % h.clients.len()];
                     format!("AgeSnapshot:{}", h.model.client(cid).snap.is_some())
+                }
+                Op::NewClient { c } => {
+                    let cid = h.clients[*c as usize % h.clients.len()];
+                    format!("NewClient:{}", h.model.client(cid).chain.len())
                 }
                 _ => "?".to_string(),
             }
